@@ -332,6 +332,27 @@ var onOff = &proto.Family{ID: "C12", Gen: func(tier string) []proto.Item {
 		it.Class = "filters-on-vs-off/" + it.Class
 		out = append(out, it)
 	}
+	// direct TCP replies from the target address whose ports are not the flow's (another port of the target, a sibling
+	// connection's local port): the tuple filter drops them, so the matcher must not use them either
+	for _, v := range proto.Variants {
+		vi := proto.Info(v)
+		var forms []string
+		switch vi.Kind {
+		case "tcp", "tcpparis":
+			forms = []string{"synack", "rst", "rstack"}
+		case "sack":
+			forms = []string{"sack1"}
+		}
+		for _, form := range forms {
+			for _, f := range []string{"tcp.sport", "tcp.dport"} {
+				for _, op := range []string{"+1", "+256"} {
+					s := proto.Scn{Variant: v, First: 1, Last: 4, Dest: 3, IPIDBase: 1200, EchoBase: 121, TimeoutMs: 300, DelayMs: 10}
+					s.Hops = map[int]proto.HopSpec{3: {Form: form, AtTarget: true, Perturb: &simnet.Perturb{Field: f, Op: op}, Tag: "wrong-port"}, 4: {Silent: true}}
+					out = append(out, proto.Item{Scn: s, Class: fmt.Sprintf("filters-on-vs-off/%s/%s/wrong-%s", v, form, f)})
+				}
+			}
+		}
+	}
 	// SACK handshake: segments of the run's own connection carrying every flag byte other than SYN|ACK (a challenge ACK,
 	// a bare SYN of a simultaneous open, RST, FIN-ACK, ...) precede the genuine SYN-ACK; the SYN-ACK filter drops them,
 	// so the matcher must ignore them as well
